@@ -133,9 +133,9 @@ impl FieldElement for BaseElement {
 
     #[inline]
     fn double(self) -> Self {
-        let ret = (self.0 as u128) << 1;
-        let (result, over) = (ret as u64, (ret >> 64) as u64);
-        Self(result.wrapping_sub(M * over))
+        // doubling via addition keeps the result in the canonical range [0, M); subtracting M
+        // only when 2 * self overflows 64 bits does not (e.g., for self = 2^63 - 1)
+        self + self
     }
 
     #[inline]
